@@ -4,6 +4,7 @@ import (
 	"context"
 	"fmt"
 	"hash/fnv"
+	"math"
 	"math/rand"
 	"runtime"
 	"sort"
@@ -1067,6 +1068,13 @@ func foTableScenarios() []foScenario {
 									// for the expired item with errors.As, so the table is the same)
 									out = append(out, foScenario{Cfg: c, Keys: []foKey{k}, Threads: []foThread{{Key: 1}}, Builds: []foBuild{{OK: bok}},
 										FaultAt: map[int]bool{}, SchedSeed: 1, Label: "table", WrapErrs: true})
+								}
+								if state == "stale" && msSet {
+									// the same cell with "forever" spelled as the largest duration (time arithmetic near overflow)
+									ch := c
+									ch.MS = time.Duration(math.MaxInt64)
+									out = append(out, foScenario{Cfg: ch, Keys: []foKey{k}, Threads: []foThread{{Key: 1}}, Builds: []foBuild{{OK: bok}},
+										FaultAt: map[int]bool{}, SchedSeed: 1, Label: "table"})
 								}
 								if state == "stale" && !msSet {
 									// the same cell under a negative MaxStaleness
